@@ -1,0 +1,293 @@
+//! Verification hooks. This module only exists when the crate is compiled with
+//! `--cfg mini_moka_verif`; it is never part of a normal build.
+
+use crate::common::time::clock::{Clock, Mock};
+
+use std::{sync::Arc, time::Duration};
+
+/// A handle to the mock expiration clock installed by `verif_set_clock`.
+#[derive(Clone)]
+pub struct MockClock {
+    mock: Arc<Mock>,
+}
+
+impl MockClock {
+    pub(crate) fn new_pair() -> (Clock, MockClock) {
+        let (clock, mock) = Clock::verif_mock();
+        (clock, MockClock { mock })
+    }
+
+    /// Advances the mock clock.
+    pub fn advance(&self, amount: Duration) {
+        self.mock.verif_increment(amount);
+    }
+}
+
+// ---------------------------------------------------------------------------
+// Component facades
+// ---------------------------------------------------------------------------
+
+use crate::common::{
+    deque::{DeqNode, Deque},
+    frequency_sketch::FrequencySketch,
+    CacheRegion,
+};
+use std::{collections::HashMap, ptr::NonNull};
+
+/// The popularity estimator on its own.
+#[derive(Default)]
+pub struct Sketch {
+    inner: FrequencySketch,
+}
+
+impl Sketch {
+    pub fn new() -> Self {
+        Self::default()
+    }
+
+    pub fn ensure_capacity(&mut self, cap: u32) {
+        self.inner.ensure_capacity(cap)
+    }
+
+    pub fn increment(&mut self, hash: u64) {
+        self.inner.increment(hash)
+    }
+
+    pub fn frequency(&self, hash: u64) -> u8 {
+        self.inner.frequency(hash)
+    }
+
+    pub fn table_len(&self) -> usize {
+        self.inner.verif_table_len()
+    }
+
+    pub fn sample_size(&self) -> u32 {
+        self.inner.verif_sample_size()
+    }
+
+    pub fn size(&self) -> u32 {
+        self.inner.verif_size()
+    }
+
+    pub fn resets(&self) -> u32 {
+        self.inner.verif_resets()
+    }
+
+    pub fn slots(&self, hash: u64) -> [(usize, u8); 4] {
+        self.inner.verif_slots(hash)
+    }
+}
+
+/// The intrusive list on its own. Nodes are named by handles; a call is only
+/// forwarded to the list when the handle is live, which is the precondition all
+/// callers inside the crate establish (they hold the node pointer in a live
+/// entry and test `contains` first).
+pub struct Deq<T> {
+    inner: Deque<T>,
+    live: HashMap<u64, NonNull<DeqNode<T>>>,
+    by_addr: HashMap<usize, u64>,
+    next_handle: u64,
+}
+
+impl<T> Default for Deq<T> {
+    fn default() -> Self {
+        Self {
+            inner: Deque::new(CacheRegion::MainProbation),
+            live: HashMap::new(),
+            by_addr: HashMap::new(),
+            next_handle: 0,
+        }
+    }
+}
+
+impl<T> Deq<T> {
+    pub fn new() -> Self {
+        Self::default()
+    }
+
+    pub fn len(&self) -> usize {
+        self.inner.verif_len()
+    }
+
+    pub fn is_empty(&self) -> bool {
+        self.len() == 0
+    }
+
+    pub fn push_back(&mut self, elem: T) -> u64 {
+        let node = self.inner.push_back(Box::new(DeqNode::new(elem)));
+        let h = self.next_handle;
+        self.next_handle += 1;
+        self.live.insert(h, node);
+        self.by_addr.insert(node.as_ptr() as usize, h);
+        h
+    }
+
+    pub fn contains(&self, handle: u64) -> bool {
+        match self.live.get(&handle) {
+            Some(node) => self.inner.contains(unsafe { node.as_ref() }),
+            None => false,
+        }
+    }
+
+    /// Returns false (and does nothing) if the handle is not live.
+    pub fn move_to_back(&mut self, handle: u64) -> bool {
+        match self.live.get(&handle) {
+            Some(node) if self.inner.contains(unsafe { node.as_ref() }) => {
+                unsafe { self.inner.move_to_back(*node) };
+                true
+            }
+            _ => false,
+        }
+    }
+
+    pub fn move_front_to_back(&mut self) {
+        self.inner.move_front_to_back()
+    }
+
+    /// Returns false (and does nothing) if the handle is not live.
+    pub fn unlink_and_drop(&mut self, handle: u64) -> bool {
+        match self.live.get(&handle) {
+            Some(node) if self.inner.contains(unsafe { node.as_ref() }) => {
+                let node = *node;
+                self.live.remove(&handle);
+                self.by_addr.remove(&(node.as_ptr() as usize));
+                unsafe { self.inner.unlink_and_drop(node) };
+                true
+            }
+            _ => false,
+        }
+    }
+
+    pub fn pop_front(&mut self) -> Option<(u64, T)> {
+        let front = self.inner.peek_front_ptr()?;
+        let h = self.by_addr.remove(&(front.as_ptr() as usize));
+        let node = self.inner.pop_front()?;
+        let h = h.expect("front node without a handle");
+        self.live.remove(&h);
+        let DeqNode { element, .. } = *node;
+        Some((h, element))
+    }
+
+    pub fn peek_front(&self) -> Option<&T> {
+        self.inner.peek_front().map(|n| &n.element)
+    }
+
+    /// Handle of the front node.
+    pub fn front_handle(&self) -> Option<u64> {
+        let front = self.inner.peek_front_ptr()?;
+        self.by_addr.get(&(front.as_ptr() as usize)).copied()
+    }
+
+    /// Handle of the node after `handle`, following the `next` link the way the
+    /// admission code does.
+    pub fn next_handle_of(&self, handle: u64) -> Option<u64> {
+        let node = self.live.get(&handle)?;
+        let next = DeqNode::next_node_ptr(*node)?;
+        self.by_addr.get(&(next.as_ptr() as usize)).copied()
+    }
+
+    /// One step of the list's own cursor iteration.
+    pub fn cursor_next(&mut self) -> Option<&T> {
+        let mut it = &mut self.inner;
+        Iterator::next(&mut it)
+    }
+
+    /// Structural validity; returns the handles in list order.
+    pub fn walk(&self) -> Result<Vec<u64>, String> {
+        let nodes = self.inner.verif_walk()?;
+        let mut out = Vec::with_capacity(nodes.len());
+        for n in nodes {
+            match self.by_addr.get(&(n.as_ptr() as usize)) {
+                Some(h) => out.push(*h),
+                None => return Err("list holds a node nobody pushed".to_string()),
+            }
+        }
+        Ok(out)
+    }
+
+    /// Element behind a live handle.
+    pub fn get(&self, handle: u64) -> Option<&T> {
+        self.live
+            .get(&handle)
+            .map(|n| unsafe { &(*n.as_ptr()).element })
+    }
+}
+
+// ---------------------------------------------------------------------------
+// Switch points
+// ---------------------------------------------------------------------------
+
+use std::cell::RefCell;
+
+/// Identifiers of the switch points placed in the concurrent cache.
+pub mod site {
+    pub const INSERT_START: u16 = 1;
+    pub const INSERT_AFTER_CLOCK: u16 = 2;
+    pub const INSERT_AFTER_MAP: u16 = 3;
+    pub const WRITE_LOOP_TOP: u16 = 4;
+    pub const WRITE_BEFORE_SEND: u16 = 5;
+    /// The write queue was full: the caller is about to sleep and retry.
+    pub const WRITE_RETRY: u16 = 6;
+    pub const INVALIDATE_AFTER_MAP: u16 = 7;
+    pub const INVALIDATE_ALL_AFTER_CLOCK: u16 = 8;
+    pub const GET_AFTER_CLOCK: u16 = 9;
+    pub const GET_BEFORE_RECORD: u16 = 10;
+    pub const READ_BEFORE_SEND: u16 = 11;
+    pub const SYNC_START: u16 = 12;
+    pub const SYNC_AFTER_READS: u16 = 13;
+    pub const SYNC_BETWEEN_WRITES: u16 = 14;
+    pub const SYNC_BEFORE_EXPIRE: u16 = 15;
+    pub const SYNC_BEFORE_LRU: u16 = 16;
+    pub const SYNC_BEFORE_PUBLISH: u16 = 17;
+    pub const TRY_SYNC_START: u16 = 18;
+    pub const TRY_SYNC_WON: u16 = 19;
+    pub const TRY_SYNC_RELEASED: u16 = 20;
+    pub const NUM_SITES: u16 = 21;
+
+    /// `LOCK_ACQUIRE | lock id` is reported just before a blocking lock is taken,
+    /// `LOCK_RELEASE | lock id` just after it has been released.
+    pub const LOCK_ACQUIRE: u16 = 0x8000;
+    pub const LOCK_RELEASE: u16 = 0x4000;
+    /// The maintenance lock (the queues mutex).
+    pub const LOCK_ID_DEQUES: u16 = 1;
+}
+
+type SwitchCallback = Box<dyn FnMut(u16)>;
+
+thread_local! {
+    static SWITCH_CALLBACK: RefCell<Option<SwitchCallback>> = RefCell::new(None);
+}
+
+/// Installs (or removes) the calling thread's switch-point callback. Without a
+/// callback a switch point does nothing.
+pub fn set_switch_callback(cb: Option<SwitchCallback>) {
+    SWITCH_CALLBACK.with(|c| *c.borrow_mut() = cb);
+}
+
+#[inline]
+pub(crate) fn switch_point(site: u16) {
+    SWITCH_CALLBACK.with(|c| {
+        if let Ok(mut guard) = c.try_borrow_mut() {
+            if let Some(cb) = guard.as_mut() {
+                cb(site)
+            }
+        }
+    });
+}
+
+/// Marks the extent of a blocking lock for the scheduler. Declare it *before* the
+/// guard so that it is dropped after the guard.
+pub(crate) struct LockScope(u16);
+
+impl LockScope {
+    pub(crate) fn new(lock_id: u16) -> Self {
+        switch_point(site::LOCK_ACQUIRE | lock_id);
+        LockScope(lock_id)
+    }
+}
+
+impl Drop for LockScope {
+    fn drop(&mut self) {
+        switch_point(site::LOCK_RELEASE | self.0);
+    }
+}
